@@ -207,7 +207,7 @@ func (p *probe) expectAccept(sig string, w wireReq, extra interface{}) (ok bool)
 	var out verdict
 	var fwd []byte
 	p.r.Eval(1)
-	if p.r.Guard(p.part+":"+sig, map[string]interface{}{"config": p.cfg, "request": descReq(w)}, func() { out, fwd = serve(p.v, w.bytes()) }) {
+	if p.r.Guard(sig, map[string]interface{}{"config": p.cfg, "request": descReq(w)}, func() { out, fwd = serve(p.v, w.bytes()) }) {
 		return false
 	}
 	if out.Err != "" {
@@ -231,7 +231,7 @@ func (p *probe) expectAccept(sig string, w wireReq, extra interface{}) (ok bool)
 func (p *probe) expectReject(sig string, w wireReq, extra interface{}) {
 	var out verdict
 	p.r.Eval(1)
-	if p.r.Guard(p.part+":"+sig, map[string]interface{}{"config": p.cfg, "request": descReq(w)}, func() { out, _ = serve(p.v, w.bytes()) }) {
+	if p.r.Guard(sig, map[string]interface{}{"config": p.cfg, "request": descReq(w)}, func() { out, _ = serve(p.v, w.bytes()) }) {
 		return
 	}
 	if out.Err != "" {
